@@ -136,3 +136,46 @@ def per_instance_state(repo: Repo, rep, rule: str, classes: dict[str, tuple[str,
             if not bad:
                 rep.ok(rule, f"{short}.{cname} :: no mutable class-level state")
     return n
+
+
+# except clauses that exist today in the codec modules and were read: (module, function, caught) -> why harmless
+SWALLOW_ALLOWED = {
+    ("pdu", "A_ASSOCIATE_AC.reserved_aec", "ValueError"): "reserved field of the AC PDU that PS3.8 says shall not be tested; '' on undecodable bytes",
+    ("pdu", "A_ASSOCIATE_AC.reserved_aet", "ValueError"): "same reserved field",
+    ("pdu_primitives", "A_ASSOCIATE.reason_str", "KeyError"): "text for a log line; the numeric fields are untouched",
+}
+
+
+def _must_raise(stmts) -> bool:
+    """every path through `stmts` ends in a raise (syntactic, conservative: loops and try are 'may fall through')"""
+    for s in stmts:
+        if isinstance(s, ast.Raise):
+            return True
+        if isinstance(s, ast.If) and s.orelse and _must_raise(s.body) and _must_raise(s.orelse):
+            return True
+    return False
+
+
+def no_swallow(repo: Repo, rep, rule: str, modules: tuple[str, ...] = ("pdu", "pdu_items", "pdu_primitives")) -> int:
+    """In the PDU codec modules an exception raised while converting a received item is the only
+    way 'this item is invalid' reaches the state machine (-> A-ABORT / rejection). Report every
+    except clause there that can complete without raising and is not in the table of read sites:
+    the invalid item would be dropped silently and the rest of the PDU acted upon."""
+    n = 0
+    for short in modules:
+        m = repo.mod(short)
+        for node in ast.walk(m.tree):
+            if not isinstance(node, ast.Try):
+                continue
+            for h in node.handlers:
+                n += 1
+                caught = norm(h.type) if h.type is not None else "BaseException"
+                fq = qualname(node)
+                key = (short, fq, caught)
+                if _must_raise(h.body):
+                    rep.ok(rule, f"{short}.{fq} :: except {caught} re-raises on every path")
+                elif key in SWALLOW_ALLOWED:
+                    rep.ok(rule, f"{short}.{fq} :: except {caught}", SWALLOW_ALLOWED[key])
+                else:
+                    rep.fail(rule, f"{short}.{fq}", h.body[0] if h.body else node, f"`except {caught}` in the PDU codec can complete without raising: an item or field the peer sent that cannot be converted is dropped silently instead of failing the PDU (invalid PDU -> A-ABORT / rejection), so the checks that depend on that item never run", mod=m, node=h)
+    return n
